@@ -19,6 +19,9 @@
 (*  drv = "fill"   FillComputeSeq / FillSeq filled value by value until    *)
 (*                 LenaStopFill, then computed                             *)
 (*       FillValue, FillCompute                                            *)
+(*  drv = "persist" the same object filled with every value although it    *)
+(*                 raised LenaStopFill, then computed twice                *)
+(*       PersistValue, PersistCompute, ComputeAgain                        *)
 (*  drv = "split"  Split([(pre.., acc, post..)], bufsize = bs).run(flow)   *)
 (*       SplitRead, SplitFill (the loop over the block; on LenaStopFill    *)
 (*       the branch computes at once and is dropped), SplitEnd             *)
@@ -51,12 +54,12 @@ AlphaQuick == CtxSel \cup {Map("tag"), Map("inc"), Map("var"), Filter("even"), F
                Slice(0, 0, 1), RunIf("even", "inc"), RunIf("lt2", "drop")}
 AlphaMid == AlphaQuick \cup {Map("dbl"), Map("tag"), Filter("lt2"), Slice(2, 3, 1), Slice(0, 3, 2), Slice(3, None, 1),
                              RunIf("all", "dbl")}
-AlphaFull == AlphaMid \cup AllSlices \cup {VarAttr("run"), VarAttr("fill"), VarAttr("compute"), VarAttr("request"),
+AlphaFull == AlphaMid \cup AllSlices \cup {VarAttr("all"), RunIfDup("odd"), RunIfDup("variable"), VarAttr("run"), VarAttr("fill"), VarAttr("compute"), VarAttr("request"),
               VarAttr("fill_into"), Map("upd"), Filter("all"), RunIf("even", "drop")}
-AlphaSmall == {Map("inc"), VarAttr("run"), Filter("even"), Slice(0, 2, 1), Slice(1, 3, 2), RunIf("lt2", "drop"),
-               CFilter("odd", "str"), CFilter("variable", "fn"), CRunIf("odd", "inc")}
-AlphaThorough == AlphaSmall \cup {Map("var"), VarAttr("fill"), Map("tag"), CFilter("t", "str")}
-AlphaDeep == {Map("inc"), Map("var"), Filter("even"), Slice(0, 2, 1), Slice(1, 3, 2), CFilter("odd", "str"), CRunIf("odd", "inc")}
+AlphaSmall == {Map("inc"), VarAttr("all"), Filter("even"), Slice(0, 2, 1), Slice(1, 3, 2), RunIf("lt2", "drop"),
+               CFilter("odd", "str"), CFilter("variable", "fn"), RunIfDup("odd")}
+AlphaThorough == AlphaSmall \cup {CRunIf("odd", "inc"), Map("var"), VarAttr("fill"), Map("tag"), CFilter("t", "str")}
+AlphaDeep == {Map("inc"), Map("var"), Filter("even"), Slice(0, 2, 1), Slice(1, 3, 2), CFilter("odd", "str"), RunIfDup("odd")}
 PostsSmall == {<<>>, <<Map("inc")>>, <<Sum>>}
 AccsSmall == {"sum", "store1"}
 BufQuick == {1, 2, 3, 1000, None}
@@ -114,6 +117,20 @@ FillCompute == /\ drv = "fill" /\ phase = "feed" /\ (pos = N \/ stopped)
                /\ out' = Results /\ computes' = computes + 1 /\ phase' = "done"
                /\ Scenario /\ UNCHANGED <<pos, locs, aloc, buf, active, stopped, reach, stopAt>>
 
+\* ---- FillComputeSeq that is filled with every value although LenaStopFill was raised, and computed twice
+PersistValue == /\ drv = "persist" /\ phase = "feed" /\ pos < N
+                /\ LET r == FillVals(ch.pre, locs, 1, <<xs[pos + 1]>>) IN
+                   /\ locs' = r.locs /\ aloc' = AccFillAll(ch.acc, aloc, r.reach) /\ reach' = reach \o r.reach
+                   /\ stopped' = (stopped \/ r.stop) /\ stopAt' = (IF r.stop /\ ~stopped THEN pos ELSE stopAt)
+                /\ pos' = pos + 1
+                /\ Scenario /\ UNCHANGED <<buf, active, out, computes, phase>>
+PersistCompute == /\ drv = "persist" /\ phase = "feed" /\ pos = N
+                  /\ out' = Results /\ computes' = computes + 1 /\ phase' = "done"
+                  /\ Scenario /\ UNCHANGED <<pos, locs, aloc, buf, active, stopped, reach, stopAt>>
+ComputeAgain == /\ drv = "persist" /\ phase = "done" /\ Stateless(ch.post)
+                /\ out' = Results /\ phase' = "done2"
+                /\ Scenario /\ UNCHANGED <<pos, locs, aloc, buf, active, stopped, reach, computes, stopAt>>
+
 \* ---- Split.run with the chain as its only branch
 SplitRead == /\ drv = "split" /\ phase = "read"
              /\ LET k == IF bs = None THEN N - pos ELSE Min(bs, N - pos) IN
@@ -153,9 +170,10 @@ SplitEnd == /\ drv = "split" /\ phase = "final"
             /\ phase' = "done"
             /\ Scenario /\ UNCHANGED <<pos, locs, aloc, buf, active, stopped, reach, stopAt>>
 
-Next == RunFeed \/ RunEof \/ FillValue \/ FillCompute \/ SplitRead \/ SplitFill \/ SplitEnd
+Next == RunFeed \/ RunEof \/ FillValue \/ FillCompute \/ PersistValue \/ PersistCompute \/ ComputeAgain
+           \/ SplitRead \/ SplitFill \/ SplitEnd
 Spec == Init /\ [][Next]_vars
-Done == phase = "done"
+Done == phase \in {"done", "done2"}
 
 (***************************************************************************)
 (* Properties.                                                             *)
@@ -164,8 +182,10 @@ Done == phase = "done"
 DriversAgree == Done => out = ChainSem(ch, xs)
 \* the accumulator receives exactly what the pre elements let through
 FillReaches == Done => reach = Reach(ch, xs)
-\* LenaStopFill is raised only when no later value could reach the accumulator
-StopSound == stopped => Reach(ch, xs) = Reach(ch, SubSeq(xs, 1, stopAt))
+\* LenaStopFill is raised only when no later value could reach the accumulator, and it is final: the accumulator
+\* has then received everything it will ever receive (the call that raised may itself have delivered values:
+\* an element can yield several values for one), whatever is filled afterwards (driver "persist")
+StopSound == stopped => reach = Reach(ch, xs)
 \* the accumulator computes exactly once (Split: at once when the branch stops, else at the end)
 ComputeOnce == /\ computes <= 1
                /\ Done => computes = 1
@@ -173,6 +193,6 @@ ComputeOnce == /\ computes <= 1
 \* Split holds at most one block
 BufBound == bs # None => Len(buf) <= bs
 
-Emitted == (Done /\ drv = "fill") =>
+Emitted == (phase = "done" /\ drv = "fill") =>
    PrintT(ToJson([ch |-> ch, N |-> N, fk |-> fk, out |-> out, reach |-> reach, stopAt |-> stopAt]))
 =============================================================================
